@@ -15,6 +15,7 @@ import traceback
 VERIF = os.path.dirname(os.path.dirname(os.path.abspath(__file__)))
 SEED_MULT = 1_000_003
 NPROC = int(os.environ.get("WDSIM_NPROC", "16"))
+KEY_CAP = 250_000  # per worker: beyond this the distinct counts in the evidence are lower bounds
 
 
 def scratch_base():
@@ -124,9 +125,11 @@ def worker(prop, tier, base_seed, wid, nworkers, budget_s, max_runs, out_path):
                 agg["extra"][k] = agg["extra"].get(k, 0) + v
         hk = res.get("hist_key") or key_of(case.get("ops", case))
         ik = key_of(res["trace"])
-        agg["hist_keys"].add(hk)
-        agg["inter_keys"].add(ik)
-        if res["trace"] or res["faults"] or res.get("nontrivial"):
+        if len(agg["hist_keys"]) < KEY_CAP:
+            agg["hist_keys"].add(hk)
+        if len(agg["inter_keys"]) < KEY_CAP:
+            agg["inter_keys"].add(ik)
+        if (res["trace"] or res["faults"] or res.get("nontrivial")) and len(agg["nontrivial"]) < KEY_CAP:
             agg["nontrivial"].add(hk + ik)
         if res["harness_error"]:
             if len(agg["harness_errors"]) < 3:
@@ -141,6 +144,7 @@ def worker(prop, tier, base_seed, wid, nworkers, budget_s, max_runs, out_path):
         idx += nworkers
     agg["wall"] = time.time() - t0
     agg["enum_done"] = enum_done
+    agg["capped"] = any(len(agg[k]) >= KEY_CAP for k in ("hist_keys", "inter_keys", "nontrivial"))
     for k in ("hist_keys", "inter_keys", "nontrivial"):
         agg[k] = sorted(agg[k])
     with open(out_path + ".tmp", "w") as f:
@@ -226,6 +230,7 @@ def merge(aggs):
         m["harness_errors"].extend(a["harness_errors"])
         m["samples"].extend(a["samples"])
         m["wall"] = max(m["wall"], a["wall"])
+        m["capped"] = m.get("capped", False) or a.get("capped", False)
         m["enum_done"] = m["enum_done"] and a.get("enum_done", False)
     return m
 
@@ -389,6 +394,7 @@ def write_evidence(prop, tier, base_seed, scn, m, wall, n_viol, extra_cov=None):
         "violation_signatures": m["sig_counts"],
         "components": scn.components,
         "workers": NPROC,
+        "distinct_counts_are_lower_bounds": bool(m.get("capped")),
         "exhaustive": bool(getattr(scn, "exhaustive", False) and m.get("enum_done")),
     }
     cov.update(m.get("extra", {}))
